@@ -52,10 +52,11 @@ def analysis_input():
 
 
 TAGS = [("X", None), ("TT", "degC"), ("FT01", "L/h"), ("PCT", "%"), ("VOLP", "vol%"), ("Len", "cm"), ("Run Time", "s"), ("Run Counter", None)]
-UNITS = ["degC", "K", "degF", "L/h", "L/min", "%", "vol%", "wt%", "cm", "m", "s", "min", "kg", "xyz"]
+UNITS = ["degC", "K", "degF", "L/h", "L/min", "%", "vol%", "wt%", "mol%", "cm", "m", "s", "min", "h", "ms", "kg", "xyz"]
 CMDS = {"Speed": ["5 %", "5", "5.5 %", "abc", "", "-3 %"], "Count": ["3", "-1", "2.5", "", "3 s"], "Flow": ["2 L/h", "2 L/min", "2 L", "2"],
         "Valve": ["Open", "Closed", "Ajar", "", "Open+Closed"], "Note": ["hello", ""], "Plain": ["", "x"],
-        "Wait": ["1 s", "0.5 s", "abc", "", "1", "1 L"], "Pause": ["", "1 s", "x", "1 L"], "Hold": ["", "1 s", "zz"],
+        "Wait": ["1 s", "0.5 s", "abc", "", "1", "1 L", "0.02 min", "0.001 h", "500 ms", "2 ms"],
+        "Pause": ["", "1 s", "x", "1 L", "0.01 min", "500 ms"], "Hold": ["", "1 s", "zz", "0.01 min", "500 ms"],
         "Base": ["s", "min", "zz", ""], "Info": ["i", ""], "Notify": ["n"], "Increment run counter": ["", "x"], "Mark": ["m", ""],
         "Frob": ["1", ""], "Speeed": ["5 %"], "Vlave": ["Open"]}
 
